@@ -4,6 +4,7 @@
 -/
 import Gnet.Spec.ReactorSpec
 import Gnet.Proofs.ReactorLife
+import Gnet.Spec.ReactorExample
 namespace Gnet.Props.C04
 open Gnet.Reactor
 
@@ -14,6 +15,13 @@ theorem lifecycle (s s' : RState) (toks : List Tok) (hn : NamesNodup s)
   Proofs.ReactorLife.lifecycle s s' toks hn h hl
 
 theorem lifecycle_init (cfg : Cfg) : InvLife { cfg := cfg } := Proofs.ReactorLife.lifecycle_init cfg
+
+/-! Non-vacuity: the recorded history runs through a whole life, OnOpen, OnTraffic, OnClose, after which the descriptor
+is closed; `lifecycle_init` gives the hypothesis for its first round. -/
+example : (Example.after 3).bind Example.lifeView = some (["open", "traffic", "close"], false) := by decide +kernel
+
+example (s1 : RState) (h : acceptRound Example.s0 Example.round1 = .ok s1) : InvLife s1 :=
+  lifecycle _ _ _ (by simp [NamesNodup, Example.s0]) h (lifecycle_init _)
 
 end Gnet.Props.C04
 
